@@ -348,6 +348,12 @@ Definition slice_index (o : option value) : res (option Z) :=
               end
   end.
 Definition py_slice (v : value) (lo hi step : option value) : res value :=
+  (* the slice object is built without looking at its parts; an undefined / mapping / probe
+     object fails (or misses) before any index is interpreted *)
+  match v with
+  | VUndef _ => Err EUndef
+  | VDict _ | VObj _ _ _ => Err EKey
+  | _ =>
   match slice_index lo, slice_index hi, slice_index step with
   | Err e, _, _ => Err e
   | _, Err e, _ => Err e
@@ -369,6 +375,7 @@ Definition py_slice (v : value) (lo hi step : option value) : res value :=
       | VFloat _ _ => Err EOpaque
       | _ => Err EType
       end
+  end
   end.
 
 (* ---- arithmetic ---- *)
